@@ -30,6 +30,8 @@ def run(ck):
     lines = []; idx = []
     for i, (c, o) in enumerate(zip(cases, outs)):
         dist[c["kind"] + "/" + c["place"]] = dist.get(c["kind"] + "/" + c["place"], 0) + 1
+        if o is not None and o.startswith("FATAL PREMERGE"):
+            continue          # the preparation of the tissue (edge merges before the phase) failed: not a case
         if o is None or o.startswith("FATAL"):
             info = cinfo.get(i, o or "")
             fails.append((i, "contact_phase_indexes_existing_voxels", "the contact phase died on a %s tissue placed %s (%s)" % (c["kind"], c["place"], info[-400:].replace("\n", " "))))
